@@ -63,6 +63,7 @@ UNITS = {
     'SETTERS': dict(template='setters.rs', rlimit=30),
     'VISITENUM': dict(template='visitenum.rs', rlimit=30),
     'NEWTYPES': dict(template='newtypes.rs', rlimit=30),
+    'SIZEENTRY': dict(template='sizeentry.rs', rlimit=30),
 }
 
 VARW = 'PROVED for every value (units SERSTR + READERS): strings, symbols and binaries of ANY length and content, outside and inside arrays -- the serializer writes a valid str8/str32, sym8/sym32, vbin8/vbin32 encoding whose size field counts octets ([C05.*.encoding], [C05.*.array-element]); the decoder reads both width variants by the AMQP layout and accepts every one of them from a reliable reader ([C05.*.decoding], [C05.*.every-variant-accepted]); lemma_var_round_trip joins the two: decode(encode(x) ++ rest) == x, consuming exactly the encoding; serialized_size agrees with the octets written ([C20.size.*]); compound headers are decoded to the body length and count the layout defines ([C05.compound.header-decoding])'
@@ -138,7 +139,7 @@ PROPS = {
             'PROVED for every value: the fixed-width primitives listed in the obligations (Kani harnesses, loop-free / fully unwound over the full domain) and the compound header writers (Verus)',
             'BOUNDED ONLY (listed under bounded_obligations, never counted as proved): decoders on short byte strings, compound headers with hostile size/count bytes',
             'PROVED per function since session 8 (units DEENTRY, SERENTRY, SEQACCESS, DESCDISPATCH, VISITENUM, NEWTYPES, WIRELAYOUT, ENUMCODES, ERRCOND): every typed entry point of the deserializer and every compound serializer of ser.rs (the generic visitor / value is a recording stand-in), the descriptor / constructor dispatchers and visit_enum of the typed protocol enums, the names the AMQP-specific types announce themselves with, the wire layout of the 28 derive-macro composites read from their declarations, the restricted types and error-condition symbols in both directions. NOT DECIDED: the composition over arbitrary nesting (the induction over the serde visitor chain is not mechanised: each step is under contract, the chain is not), the derive macro itself (serde_amqp_derive: proc-macro code; that it writes / reads fields in declaration order is decided by the bounded composite probes), the Serialize / Deserialize impls of Value, Described, Array (deserialize side), Body and batches',
-            'compound header writers: the call-site fact count <= byte length (every element occupies at least one byte in this implementation) is assumed; the serde SerializeSeq / Tuple / Map / Struct / TupleStruct impls that call them are under contract in unit SERENTRY (count = elements serialized, body = their octets, position = the enclosing one); the size twin (size_ser.rs compound serializers) is not -- see DESIGN section 8 for the three arms in which it differs from ser.rs',
+            'compound header writers: the call-site fact count <= byte length (every element occupies at least one byte in this implementation) is assumed; the serde SerializeSeq / Tuple / Map / Struct / TupleStruct impls that call them are under contract in unit SERENTRY (count = elements serialized, body = their octets, position = the enclosing one); the size twin (size_ser.rs compound serializers and entry points) is under contract in unit SIZEENTRY: it adds up the sizes of exactly the elements / fields ser.rs writes, under the same modes except in three arms (DESIGN section 8), which the clauses name',
             'messages: Message::serialize is proved to hand the serializer exactly the sections that are set, in the AMQP order, and the Message visitor (visit_seq, FieldVisitor::visit_u64) to rebuild the same sections from them (lemma_message_round_trip, all 64 presence combinations, body descriptors 0x75-0x77); the encoding of each section value (derive output), the body types (incl. batches of Data/AmqpSequence) are not under contract; the symbolic descriptors (visit_str) of the dispatchers are (unit DESCDISPATCH)']),
     'C05': dict(
         probes=[COMPOSITE_VARIANTS, RT_VALUE_CLASSES,
@@ -163,7 +164,7 @@ PROPS = {
                      claim='the same agreement for described types (derive(DeserializeComposite) performatives, delivery states, message sections; Described<T>)', bound='8 typed values'),
                 dict(name='tree_vs_bytes_untyped', kind='agreement', target='serde_amqp::{to_value,from_value}~{to_vec,from_slice}', args=['C20.value-tree-untyped'],
                      claim='the same agreement with the untyped tree itself as target type (from_value::<Value>, OrderedMap<Symbol, Value>)', bound='8 values')],
-        units=['FRAMEDEC', 'READERS', 'SERSTR', 'SERFIX', 'SERHDR', 'VALUESER', 'BYTEREADER', 'DEENTRY', 'VISITENUM'], lemmas={'VALUESER': ['lemma_tree_equals_direct']}, kani=K_RT + K_READER, level='proof', title='Codec entry points agree (primitives; frame payload)',
+        units=['FRAMEDEC', 'READERS', 'SERSTR', 'SERFIX', 'SERHDR', 'VALUESER', 'BYTEREADER', 'DEENTRY', 'VISITENUM', 'SIZEENTRY'], lemmas={'VALUESER': ['lemma_tree_equals_direct']}, kani=K_RT + K_READER, level='proof', title='Codec entry points agree (primitives; frame payload)',
         assumptions=[
             'PROVED for every value: the fixed-width primitives listed in the obligations (Kani harnesses, loop-free / fully unwound over the full domain) and the compound header writers (Verus)',
             'BOUNDED ONLY (listed under bounded_obligations, never counted as proved): decoders on short byte strings, compound headers with hostile size/count bytes',
